@@ -467,7 +467,12 @@ def rand_sarg(rng, arenas, coarse=None):
         while e[0] not in ("n", "r", "g"):
             e = rand_elem(rng, arenas, coarse=coarse)
         return e
-    return ["iter", [rand_elem(rng, arenas, coarse=coarse) for _ in range(rng.randint(0, 7))]]
+    items = [rand_elem(rng, arenas, coarse=coarse) for _ in range(rng.randint(0, 7))]
+    if items and rng.random() < 0.12:
+        # an element that must be refused (an integer outside both families), after at least one good element: the whole call must
+        # raise and leave the set exactly as it was
+        items.insert(rng.randint(1, len(items)), ["i", rng.choice([2 ** 128, -1, 2 ** 128 + 5, -(2 ** 32)])])
+    return ["iter", items]
 
 
 def rand_history(rng, n, weights):
